@@ -256,6 +256,80 @@ def install():
     def length(self):
         return record("length", (self,), lambda: ol(self), post=lambda r: {"res": {"k": "Num2", "q": rat(float(r) ** 2, 2)}})
     G.Segment.length = length
+    install_solver()
+
+
+def install_solver():
+    """record top-level solve() calls and calls of the returned Solution (integer / Fraction systems, exact arithmetic)"""
+    G = lib()
+    ms = sys.modules["Geometry3D.utils.solver"]
+    orig = ms.solve
+
+    def as_int_matrix(m):
+        rows = []
+        for row in m:
+            r = []
+            for x in row:
+                f = Fr(x) if isinstance(x, (int, Fr)) else None
+                if f is None or f.denominator != 1 or abs(f) > 50:
+                    raise OutOfDomain()
+                r.append(int(f))
+            rows.append(r)
+        if not (1 <= len(rows) <= 3 and 3 <= len(rows[0]) <= 4 and all(len(r) == len(rows[0]) for r in rows)):
+            raise OutOfDomain()
+        return rows
+
+    @functools.wraps(orig)
+    def solve(matrix):
+        global _depth
+        if _depth > 0:
+            return orig(matrix)
+        try:
+            m = as_int_matrix(matrix)
+        except (OutOfDomain, TypeError):
+            STATS["out_of_domain"] += 1
+            return orig(matrix)
+        _depth += 1
+        try:
+            sol = orig([[Fr(x) for x in row] for row in m] if all(isinstance(x, (int, Fr)) for row in matrix for x in row) else matrix)
+        finally:
+            _depth -= 1
+        STATS["calls"] += 1
+        log_event({"op": "solve", "m": m, "truthy": bool(sol), "varargs": sol.varargs})
+        sol._g3d_matrix = m
+        return sol
+
+    oc = ms.Solution.__call__
+
+    def call(self, *v):
+        m = getattr(self, "_g3d_matrix", None)
+        if m is None or _depth > 0:
+            return oc(self, *v)
+        res, exc = None, None
+        try:
+            res = oc(self, *v)
+            return res
+        except Exception as e:  # noqa: BLE001
+            exc = e
+            raise
+        finally:
+            try:
+                ev = {"op": "solution_call", "m": m, "params": [[Fr(x).numerator, Fr(x).denominator] for x in v]}
+                if exc is not None:
+                    ev["exc"] = type(exc).__name__
+                    ev["x"] = []
+                else:
+                    ev["x"] = [[Fr(x).numerator, Fr(x).denominator] for x in res]
+                if all(abs(n) < 10 ** 6 and 0 < d < 10 ** 6 for n, d in ev["x"] + ev["params"]):
+                    log_event(ev)
+                else:
+                    STATS["out_of_domain"] += 1
+            except (TypeError, ValueError):
+                STATS["unsnappable"] += 1
+    ms.Solution.__call__ = call
+    for mod in (ms, G, sys.modules.get("Geometry3D.utils")):
+        if mod is not None and getattr(mod, "solve", None) is orig:
+            mod.solve = solve
 
 
 def dump(path):
